@@ -86,8 +86,45 @@ def rule_a(ck):
                     bad = 'allocation failure recorded as %s (expected EBUSY)' % (fmt(eids[-1]) if eids else None)
         if strip_cast(p.ret) != ('v', 'n'):
             bad = bad or 'does not report all n octets as consumed (the deframer must be able to continue)'
+        # a store that may have been cut short must leave an error behind: that error is what makes regp_recv answer
+        # with a receive-overflow response instead of parsing a truncated frame
+        adds = p.calls('cs_add')
+        noerr_before = any('error.id == 0' in fmt(c) for c in p.cond_terms())
+        if adds and noerr_before and not (al and not any(c == ('cmp', '<=', C(0), al[0].result) for c in p.cond_terms())):
+            r = adds[-1].result
+            if eng.feasible(p.cond_terms() + [('cmp', '<', r, C(0))]):
+                eids = [e_.args[0] for e_ in p.stores() if fmt(e_.name).endswith('error.id')]
+                if not eids or not (sym.is_c(eids[-1]) and eids[-1][1] == 12):
+                    bad = bad or ('on the path {%s} cs_add may have dropped octets (result < 0 is possible) but error.id is %s: a frame larger than the block is parsed truncated instead of being answered with a receive-overflow response'
+                                  % ('; '.join(fmt(c) for c in p.cond_terms() if sym.contains(c, r)) or 'result untested', fmt(eids[-1]) if eids else 'left at 0'))
     ck.verdict(bad is None and nalloc >= 2, 'C09.a', 'run_continuable_sink', cast.where(u.fn('run_continuable_sink')),
                'one allocation at most, only without block and error; failure recorded as EBUSY; always consumes n' if bad is None and nalloc >= 2 else (bad or 'allocation paths not found'))
+
+
+def rule_init(ck):
+    """C09.a (set-up half): the sink starts without block, without error and empty"""
+    u = cast.load(CS_UNIT)
+    so = sym.unit_sizeofs(CS_UNIT, u)
+    eng = sym.Engine(u, sizeof=so, inline=set())
+    fn = 'continuable_sink_init'
+    if u.fn(fn) is None:
+        return ck.broken('C09.a', fn, '', 'function missing')
+    ck.function(fn)
+    ps = eng.paths(fn)
+    ck.analysed['paths'] += len(ps)
+    want = {'driver->buffer.data': C(0), 'driver->buffer.used': C(0), 'driver->buffer.offset': C(0), 'driver->error.id': C(0)}
+    bad = None
+    for p in ps:
+        got = {fmt(e.name): e.args[0] for e in p.stores()}
+        for k, v in want.items():
+            if strip_cast(got.get(k, ('v', '?'))) != v:
+                bad = bad or ('%s is %s after set-up, expected 0: run_continuable_sink decides from it whether to allocate / whether an error is pending'
+                              % (k, 'not assigned' if k not in got else fmt(got[k])))
+        ci = p.calls('chunk_sink_init')
+        if len(ci) != 1 or strip_cast(ci[0].args[2]) != ('v', 'driver') or 'run_continuable_sink' not in fmt(ci[0].args[1]):
+            bad = bad or 'the sink is not bound to run_continuable_sink with this driver'
+    ck.verdict(bad is None, 'C09.a', fn, cast.where(u.fn(fn)),
+               'no block, no pending error, empty buffer; bound to run_continuable_sink' if bad is None else bad)
 
 
 def rule_bce(ck, R):
@@ -359,6 +396,7 @@ def run(ck):
                        'allocator and backend callbacks (user code)']
     ck.assumptions += ['ByteBuffer invariant offset <= used <= size (C18)', 'a frame object lives at the start of its block (regp_recv: mf->frame = cs.buffer.data)']
     rule_a(ck)
+    rule_init(ck)
     R = Regp(ck)
     rule_bce(ck, R)
     rule_d(ck, R)
